@@ -666,6 +666,10 @@ impl Model {
                 top = c.clone();
                 cur = parent(&c);
             }
+            // an existing link at or below the destination is written through: lands anywhere
+            if self.t.subtree(&d).iter().any(|k| self.t.nodes[k].kind == Kind::Link) {
+                return lenient(vec!["/".into()]);
+            }
             return lenient(vec![top]);
         }
         let copy_into = self.k(&d) == K::Dir;
@@ -724,6 +728,11 @@ impl Model {
             let e = &self.t.nodes[&k];
             let dst = format!("{}{}", t_root, &k[s.len()..]);
             let dk = if t.nodes.contains_key(&dst) { Some(t.nodes[&dst].kind) } else { None };
+            if dk == Some(Kind::Link) && e.kind != Kind::Link {
+                // a file or directory copied onto an existing link: written through the link or
+                // refused; where it lands is outside the documented domain
+                return lenient(vec!["/".into()]);
+            }
             match e.kind {
                 Kind::Dir => match dk {
                     None => {
@@ -749,8 +758,14 @@ impl Model {
                         t.nodes.insert(dst, n);
                     },
                     Some(Kind::File) => {
+                        // overwritten like fs::copy: bytes and permission bits of the source
                         let n = t.nodes.get_mut(&dst).unwrap();
                         n.data = e.data.clone();
+                        n.mode = match file_mode {
+                            Some(m) if m != 0 => (m & 0o7777) | 0o100000,
+                            _ => e.mode,
+                        };
+                        free_mode.push(dst.clone());
                     },
                     _ => conflict = true,
                 },
@@ -972,6 +987,12 @@ impl Model {
                 match self.k(&p) {
                     K::Missing => same(err("Path::DoesNotExist")),
                     K::Dir => vec![alt(ok(Val::Path(p)), st(t))],
+                    K::LinkD => {
+                        // like chdir: lands in the directory the link points to (or is refused)
+                        let mut t2 = self.t.clone();
+                        t2.cwd = self.t.nodes[&p].target.clone().unwrap_or_default();
+                        vec![alt(ok(Val::Path(p.clone())), st(t2)), alt(ok(Val::Path(p)), st(t)), alt(Expect::ErrAny, Next::Same)]
+                    },
                     _ => vec![alt(ok(Val::Path(p)), st(t)), alt(Expect::ErrAny, Next::Same)],
                 }
             },
